@@ -296,8 +296,11 @@ theorem C14.cut_persisted (c : SrvCfg) (pol : Policy) (s : Srv) (r : Runner) (hl
 results, mailbox traffic, timers, time) after which **no retry and no waiter timeout is pending**,
 the run is still going, and every logged tick is persisted as it is (no waiter requirements — those
 are not written).  If the run then leaves memory — idle release or process stop — reloading it, at
-any later clock, yields exactly the live reducer state written by `to_serialized`, read back and
-restarted (`Runner.init (roundtrip live.st)`): every queued and in-progress invocation is queued or
+any later clock, yields the live reducer state written by `to_serialized`, read back and
+restarted (`Runner.init (roundtrip b)` for a `b` that agrees with the live state up to
+`first_attempt_at` values, `Sim b live.st` — a waiter keeps the first-attempt time of the invocation
+suspended in it, and for an invocation that the replay started that is the clock of the replay):
+every queued and in-progress invocation is queued or
 started again, buffers and waiters are kept (C12), no exit command is remembered (the handler is not
 finalised), and the reloaded heap holds the same retry / waiter timers as the live one: none.  The
 policy must not look at elapsed time (`TimeIndep`), because the replay runs at the clock of the
@@ -310,7 +313,7 @@ theorem C14_partial (c : SrvCfg) (pol : Policy) (hp : TimeIndep pol) (start : Ev
       r.outcome = none → r.st.isRunning = true → r.log ≠ [] → (∀ p ∈ r.log, p.1.stored = p.1) →
       (s.step c pol cut).live = none →
       ∀ now, ∃ r', reload c pol (s.step c pol cut).persisted now = .ok r' none ∧
-        r' = Runner.init c.cfg (roundtrip c.cfg r.st) now none c.timeout ∧
+        (∃ b, Sim b r.st ∧ r' = Runner.init c.cfg (roundtrip c.cfg b) now none c.timeout) ∧
         r'.heap.filter (fun t => t.tick.isRetryOrWaiterTimer) = s.pendingTimers ∧
         r'.mailbox = [] ∧ (s.step c pol cut).status = s.status := by
   intro s r hl hpend hout hrun hne hper hoff now
@@ -326,8 +329,8 @@ theorem C14_partial (c : SrvCfg) (pol : Policy) (hp : TimeIndep pol) (start : Ev
     simp [this]
   have hrel := reload_of_live c hp start 0 racts now
   simp only [← hr] at hrel
-  have hrel' := hrel hout hrun hne hper
-  refine ⟨_, by rw [hp1, hpers]; exact hrel', rfl, ?_, init_mailbox _ _ _ _ _, hp2⟩
+  obtain ⟨b, hb, hrel'⟩ := hrel hout hrun hne hper
+  refine ⟨_, by rw [hp1, hpers]; exact hrel', ⟨b, hb, rfl⟩, ?_, init_mailbox _ _ _ _ _, hp2⟩
   rw [hpend]
   apply List.filter_eq_nil_iff.mpr
   intro tm htm
